@@ -94,6 +94,10 @@ def eval_cases(cases):
             real_fail = res["rc"] != 0
             if model_fail != real_fail or (real_fail and pred["exit"] != res["rc"]):
                 rec["ties"].append({"what": "status differs", "model": pred, "real": slim(res)})
+            elif model_fail and c["cls"] in ("unterminated block", "mismatched block") and not kinds \
+                    and re.search(r"is undefined", res["stderr"] + res["log"]):
+                # a loop closed early: the template engine met the loop variable first (templates are not in this model)
+                rec["skipped"] = "template variable undefined after a shifted block boundary"
             elif model_fail:
                 k = pred["fault"]["k"]
                 if k not in kinds:
@@ -136,8 +140,8 @@ def control_worker(items):
             try:
                 lib = W.in_process(wb)
                 keep = set(W.U)
-                a = rename_uuids_by_first_occurrence(doc, keep)
-                b = rename_uuids_by_first_occurrence(json.loads(json.dumps(lib)), keep)
+                a = rename_uuids_by_first_occurrence(doc, keep)[0]
+                b = rename_uuids_by_first_occurrence(json.loads(json.dumps(lib)), keep)[0]
                 if a != b:
                     fails.append("output file differs from what converters.create_flows returns (beyond invented uuids)")
             except BaseException as e:  # noqa: BLE001
@@ -146,6 +150,41 @@ def control_worker(items):
             fails.append("valid workbook: an error was reported")
         out.append({"name": it["name"], "sentinel": sentinel, "fails": fails, "observed": slim(res),
                     "flows": len(doc["flows"]) if doc else None})
+    return out
+
+
+KNOWN_A = "F-C15-a"
+
+
+def known_cases():
+    """deterministic known-finding stream: problems the tool detects and logs at ERROR level"""
+    import random
+
+    out = []
+    wb = W.base_plain(random.Random(0))
+    w = W.wb_copy(wb)
+    w["sheets"]["content_index"]["rows"].append({"type": "create_flows", "sheet_name": "main"})
+    out.append({"what": "content index row with an invalid type", "wb": w, "pattern": r"ERROR: .*invalid type: 'create_flows'"})
+    w = W.wb_copy(wb)
+    w["sheets"]["main"]["rows"] += [
+        {"row_id": "x1", "type": "start_new_flow", "from": "m8", "message_text": "other flow"},
+        {"row_id": "x2", "type": "send_message", "from": "x1", "condition": "maybe", "message_text": "after"},
+    ]
+    out.append({"what": "edge from start_new_flow with a condition other than Completed/Expired", "wb": w,
+                "pattern": r"ERROR: .*Condition from start_new_flow must be"})
+    w = W.wb_copy(W.base_webhook(random.Random(0)))
+    w["sheets"]["hooks"]["rows"][2]["condition"] = "Sucess"
+    out.append({"what": "edge from call_webhook with a condition other than Success/Failure", "wb": w,
+                "pattern": r"ERROR: .*Condition from call_webhook/transfer_airtime must be"})
+    return out
+
+
+def known_worker(items):
+    out = []
+    for it in items:
+        res = W.run_cli(it["wb"], False)
+        out.append({"what": it["what"], "named": named(it["pattern"], res), "rc": res["rc"], "file": res["out"] is not None,
+                    "observed": slim(res)})
     return out
 
 
@@ -203,6 +242,20 @@ def run(ck: core.Check):
             wb = next(b for b in bases if b["name"] == r["name"])
             ck.violation(f, {"kind": "control", "workbook": wb, "sentinel": r["sentinel"], "observed": r["observed"]})
 
+    # known-finding stream (deterministic): detected, logged at ERROR level, command goes on
+    kc = known_cases()
+    for it, r in zip(kc, [x for sh in par.pmap(known_worker, [[c] for c in kc]) for x in sh]):
+        ck.case(("known", it["what"]))
+        ck.count("known-finding stream")
+        if r["named"] and r["rc"] == 0 and r["file"]:
+            ck.known(KNOWN_A, "a problem the tool detects and logs at ERROR level (invalid content-index row type, wrong condition on a "
+                     "start_new_flow / call_webhook edge) does not stop the command: status 0 and the output file is written",
+                     {"what": it["what"], "observed": r["observed"]})
+        elif r["named"] and (r["rc"] == 0 or r["file"]):
+            ck.violation("detected problem (ERROR record): status and output file disagree with each other",
+                         {"kind": "fault", "class": "error-level detection", "pattern": it["pattern"], "workbook": it["wb"],
+                          "sentinel": False, "observed": r["observed"]})
+
     cases, strata = build_cases(bases, ck.tier, ck.rng)
     for k, v in strata.items():
         ck.count(k, v)
@@ -236,6 +289,8 @@ def fold(ck, cases, recs, search=False):
         ck.count("base." + c["base"])
         if r["pred"].get("fault"):
             ck.count("model fault." + r["pred"]["fault"]["k"])
+        if r.get("skipped"):
+            ck.count("tie not applicable: " + r["skipped"])
         for v in r["viol"]:
             ck.violation(f"{c['cls']}: {v['what']}",
                          {"kind": "fault", "class": c["cls"], "base": c["base"], "site": c["site"], "pattern": c["pattern"],
